@@ -198,6 +198,17 @@ def run(repo, R):
         names = [f"{p}.angmom" for p in f.params if p.startswith("cont")]
         okd = isinstance(t, ast.Compare) and all(isinstance(o, ast.Eq) for o in t.ops) and \
             sorted([ast.unparse(t.left)] + [ast.unparse(x) for x in t.comparators[:-1]]) == sorted(names) and ast.unparse(t.comparators[-1]) == "0"
+        if not okd and isinstance(t, ast.Call) and ast.unparse(t.func) == "all" and len(t.args) == 1 and isinstance(t.args[0], (ast.GeneratorExp, ast.ListComp)):
+            # all(c.angmom == 0 for c in (the four shells))
+            g = t.args[0]
+            if len(g.generators) == 1 and not g.generators[0].ifs and isinstance(g.generators[0].target, ast.Name):
+                v = g.generators[0].target.id
+                seq = g.generators[0].iter
+                if isinstance(seq, ast.Name):
+                    from ..astutil import Defs as _Defs
+                    seq = _Defs(f.node).single_assign(seq.id) or seq
+                shells = sorted(ast.unparse(x) for x in seq.elts) if isinstance(seq, (ast.Tuple, ast.List)) else None
+                okd = ast.unparse(g.elt) in (f"{v}.angmom == 0", f"0 == {v}.angmom") and shells == sorted(p for p in f.params if p.startswith("cont"))
         R.check(okd, "ALLS", f.site, f"dispatch `{txt[:70]}`", "the closed form is only valid when all four shells are s shells; the recursion does not support that case",
                 where=f.where(t) if t is not None else f.where(), expected=" == ".join(names) + " == 0", found=txt)
     report(R, f, findings)
@@ -220,15 +231,102 @@ def run(repo, R):
                     pass
     R.check(bool(guard) and allowed == {"physicist", "chemist"}, "NOTATION", w.site, "notation validated",
             "`notation` must be validated against exactly {'physicist', 'chemist'}", where=w.where(), expected=["chemist", "physicist"], found=sorted(allowed))
-    tr = [n for n in ast.walk(fn) if isinstance(n, ast.Call) and ast.unparse(n.func) in ("np.transpose", "numpy.transpose")]
-    pc = path_conditions(fn)
-    okt = len(tr) == 1 and ast.unparse(tr[0].args[1]) == "(0, 2, 1, 3)"
-    cond = ""
-    if tr:
-        cond = " and ".join(("" if pol else "not ") + ast.unparse(t) for t, pol in pc.get(id(stmt_of(fn, tr[0])), ()) if "notation" in ast.unparse(t) and "not in" not in ast.unparse(t))
-    R.check(okt and cond == "notation == 'physicist'", "NOTATION", w.site, "physicist = transpose (0, 2, 1, 3) of the chemist array",
-            "the physicists' array must be the chemists' array with the two middle indices exchanged, and the chemists' array must be returned untouched",
-            where=w.where(tr[0]) if tr else w.where(), expected="if notation == 'physicist': transpose (0, 2, 1, 3)", found=f"{[ast.unparse(x) for x in tr][:1]} under [{cond}]")
+    # for each notation, follow every path of the wrapper: what is returned must be the assembled (chemists') array, with its two
+    # middle axes exchanged exactly when notation == 'physicist'
+    def swap_of(e, env):
+        """-> ('arr', swapped?) for expressions that are the assembled array possibly with axes 1 and 2 exchanged, else None"""
+        if isinstance(e, ast.Name):
+            return env.get(e.id)
+        if isinstance(e, ast.Call):
+            d = ast.unparse(e.func)
+            if isinstance(e.func, ast.Attribute) and e.func.attr.startswith("construct_array_"):
+                return ("arr", False)
+            args = list(e.args)
+            base = None
+            if d in ("np.transpose", "numpy.transpose") and len(args) == 2:
+                base, perm = swap_of(args[0], env), ast.unparse(args[1])
+                ok = perm in ("(0, 2, 1, 3)", "[0, 2, 1, 3]")
+            elif d in ("np.swapaxes", "numpy.swapaxes") and len(args) == 3:
+                base = swap_of(args[0], env)
+                ok = sorted(ast.unparse(a) for a in args[1:]) in (["1", "2"], ["-3", "2"], ["-2", "1"], ["-2", "-3"], ["-3", "-2"])
+            elif isinstance(e.func, ast.Attribute) and e.func.attr == "transpose":
+                base = swap_of(e.func.value, env)
+                ok = ", ".join(ast.unparse(a) for a in args) in ("0, 2, 1, 3", "(0, 2, 1, 3)")
+            elif isinstance(e.func, ast.Attribute) and e.func.attr == "swapaxes" and len(args) == 2:
+                base = swap_of(e.func.value, env)
+                ok = sorted(ast.unparse(a) for a in args) == ["1", "2"]
+            else:
+                return None
+            if base is None:
+                return None
+            if not ok:
+                return ("arr", "other")
+            return ("arr", (not base[1]) if base[1] in (True, False) else "other")
+        return None
+
+    def follow(stmts, states, notation, out):
+        """run the statements over a set of environments (one per path); returns are collected in `out`; -> surviving environments"""
+        for st_ in stmts:
+            if not states:
+                return []
+            if isinstance(st_, ast.Return):
+                for env in states:
+                    out.append((st_, swap_of(st_.value, env) if st_.value is not None else None))
+                return []
+            if isinstance(st_, ast.Raise):
+                return []
+            if isinstance(st_, ast.Assign) and len(st_.targets) == 1 and isinstance(st_.targets[0], ast.Name):
+                new_states = []
+                for env in states:
+                    v = swap_of(st_.value, env)
+                    env = dict(env)
+                    if v is not None:
+                        env[st_.targets[0].id] = v
+                    else:
+                        env.pop(st_.targets[0].id, None)
+                    new_states.append(env)
+                states = new_states
+                continue
+            if isinstance(st_, ast.If):
+                t = st_.test
+                val = None
+                if isinstance(t, ast.Compare) and ast.unparse(t.left) == "notation" and len(t.ops) == 1:
+                    try:
+                        rhs = ast.literal_eval(t.comparators[0])
+                    except Exception:
+                        rhs = None
+                    if rhs is not None:
+                        if isinstance(t.ops[0], ast.Eq):
+                            val = notation == rhs
+                        elif isinstance(t.ops[0], ast.NotEq):
+                            val = notation != rhs
+                        elif isinstance(t.ops[0], ast.In):
+                            val = notation in rhs
+                        elif isinstance(t.ops[0], ast.NotIn):
+                            val = notation not in rhs
+                branches = [st_.body if val else st_.orelse] if val is not None else [st_.body, st_.orelse]
+                new_states = []
+                for b in branches:
+                    new_states.extend(follow(b, [dict(e) for e in states], notation, out))
+                states = new_states
+                continue
+        return states
+
+    n_ret = 0
+    for notation in ("chemist", "physicist"):
+        outs = []
+        follow(fn.body, [{}], notation, outs)
+        if not outs:
+            raise AnalysisError("NOTATION", f"no return of electron_repulsion_integral reached for notation='{notation}'", w.where())
+        for rst, v in outs:
+            n_ret += 1
+            if v is None:
+                raise AnalysisError("NOTATION", f"returned expression `{ast.unparse(rst.value)[:60]}` is not the assembled array (idiom not recognised)", w.where(rst))
+            want_swapped = notation == "physicist"
+            R.check(v[1] is want_swapped, "NOTATION", w.site, f"notation='{notation}': return {ast.unparse(rst.value)[:50]}",
+                    "the physicists' array must be the chemists' array with the two middle indices exchanged, and the chemists' array must be returned untouched"
+                    + f" (for notation='{notation}' this return gives the array " + ("with another permutation" if v[1] == "other" else "exchanged" if v[1] else "unexchanged") + ")",
+                    where=w.where(rst), expected="axes (0, 2, 1, 3)" if want_swapped else "the assembled array as it is", found=ast.unparse(rst.value)[:80])
     R.assumptions += ["Head-Gordon/Pople and Obara-Saika two-electron recurrences as in DESIGN.md 2.2", "Boys function uninterpreted apart from its arguments",
                       "assembly and the eight-fold fill under C09/C11"]
     return ("STENCIL + AXTYPE on the electron-repulsion kernel chain, both dispatch branches: the thirty stores of the six recursion tables are "
